@@ -52,6 +52,7 @@ type Worker struct {
 	counters map[string]int64
 	samples  []json.RawMessage
 	curIdx   int64
+	tick     uint64
 	skip     map[int64]bool
 	sinceCk  int64
 	CheckEvery int64
@@ -129,6 +130,14 @@ func (w *Worker) Begin(idx int64, desc func() interface{}) {
 		// single-case mode: print the description first so that a crash still leaves it behind
 		w.emit(map[string]interface{}{"k": "case", "idx": idx, "case": desc()})
 		w.out.Flush()
+	}
+}
+
+// Tick tells the supervisor that the current case is making progress (long cases with many calls).
+func (w *Worker) Tick() {
+	if w.cur != nil {
+		w.tick++
+		binary.LittleEndian.PutUint64(w.cur[8:16], w.tick)
 	}
 }
 
